@@ -27,6 +27,8 @@ import (
 	"github.com/tikv/client-go/v2/tikvrpc"
 	"github.com/tikv/client-go/v2/util/async"
 	"google.golang.org/grpc"
+	"google.golang.org/grpc/codes"
+	"google.golang.org/grpc/status"
 )
 
 // The real RegionRequestSender (SendReqCtx / SendReqAsync) in front of the real RPCClient against a recording gRPC
@@ -45,10 +47,13 @@ type genStore struct {
 	respBy  map[string]reflect.Type    // batch wrapper suffix -> response wrapper type
 	srv     *grpc.Server
 	addr    string
+	// unary methods only: the next request of this message type is recorded and then fails with a gRPC status
+	// (what a connection error / timeout below the codec looks like to RPCClient)
+	failNext map[string]bool
 }
 
 func newGenStore() *genStore {
-	s := &genStore{count: map[string]int{}, methods: map[string][2]reflect.Type{}, respBy: map[string]reflect.Type{}}
+	s := &genStore{count: map[string]int{}, methods: map[string][2]reflect.Type{}, respBy: map[string]reflect.Type{}, failNext: map[string]bool{}}
 	it := reflect.TypeOf((*tikvpb.TikvServer)(nil)).Elem()
 	for i := 0; i < it.NumMethod(); i++ {
 		m := it.Method(i)
@@ -124,7 +129,16 @@ func (s *genStore) handle(srv interface{}, stream grpc.ServerStream) error {
 	if err := stream.RecvMsg(in); err != nil {
 		return err
 	}
-	return stream.SendMsg(s.answer("unary", in, m[1]))
+	out := s.answer("unary", in, m[1])
+	s.mu.Lock()
+	tn := reflect.TypeOf(in).Elem().Name()
+	fail := s.failNext[tn]
+	delete(s.failNext, tn)
+	s.mu.Unlock()
+	if fail {
+		return status.Error(codes.Unavailable, "verif: scripted failure below the codec")
+	}
+	return stream.SendMsg(out)
 }
 
 func (s *genStore) takeAll(cmd string) []wireRec {
@@ -240,24 +254,38 @@ func runRPCSender(seed int64, tier string) {
 					var sendErr error
 					var resp *tikvrpc.Response
 					if mode == "sync" {
-						resp, _, _, sendErr = sender.SendReqCtx(bo, req, loc.Region, 5*time.Second, tikvrpc.TiKV)
+						func() {
+							defer func() {
+								if r := recover(); r != nil {
+									sendErr = fmt.Errorf("panic in SendReqCtx: %v", r)
+								}
+							}()
+							resp, _, _, sendErr = sender.SendReqCtx(bo, req, loc.Region, 5*time.Second, tikvrpc.TiKV)
+						}()
 					} else {
-						rl := async.NewRunLoop()
-						called := false
-						sender.SendReqAsync(bo, req, loc.Region, 5*time.Second, async.NewCallback(rl, func(r *tikvrpc.ResponseExt, err error) {
-							if r != nil {
-								resp = &r.Response
+						func() {
+							defer func() {
+								if r := recover(); r != nil {
+									sendErr = fmt.Errorf("panic in SendReqAsync: %v", r)
+								}
+							}()
+							rl := async.NewRunLoop()
+							called := false
+							sender.SendReqAsync(bo, req, loc.Region, 5*time.Second, async.NewCallback(rl, func(r *tikvrpc.ResponseExt, err error) {
+								if r != nil {
+									resp = &r.Response
+								}
+								sendErr, called = err, true
+							}))
+							ctx, cancel := context.WithTimeout(context.Background(), 20*time.Second)
+							for !called {
+								if _, err := rl.Exec(ctx); err != nil {
+									sendErr = err
+									break
+								}
 							}
-							sendErr, called = err, true
-						}))
-						ctx, cancel := context.WithTimeout(context.Background(), 20*time.Second)
-						for !called {
-							if _, err := rl.Exec(ctx); err != nil {
-								sendErr = err
-								break
-							}
-						}
-						cancel()
+							cancel()
+						}()
 					}
 					if sendErr != nil {
 						callerBad += fmt.Sprintf(" %s: error %v;", mode, sendErr)
@@ -369,7 +397,7 @@ func runRPCUnaryDirect(seed int64) {
 		store.takeAll(tname)
 		callerBad := ""
 		for n := 0; n < 3; n++ {
-			if _, err := rpc.SendRequest(context.Background(), store.addr, req, 5*time.Second); err != nil {
+			if _, err := safeSend(rpc, store.addr, req); err != nil {
 				callerBad += fmt.Sprintf(" #%d error %v;", n+1, err)
 			}
 			after := snapshot(req.Req)
